@@ -394,7 +394,22 @@ def cooperate(w, duration, hold=90, asn=None, caps='default', watch=None):
                 w.settle()
                 progressed = True
             for t in w.live():
-                st = ps.setdefault(id(t), dict(open=False, ka=False, next_ka=None, H=None, seen=0))
+                if id(t) not in ps:
+                    st = ps[id(t)] = dict(open=False, ka=False, next_ka=None, H=None, seen=0)
+                    # a connection that is already in use: continue it the way a well-behaved peer would
+                    items, _ = _wire.deframe(b''.join(d for _, d in t.delivered))
+                    prior = [it for it in items if it[0] == 'frame']
+                    po = [it for it in prior if it[1] == 1]
+                    aw = [f for f in _wire.frames_of_writes(t.written) if f[1] == 1]
+                    if po and aw:
+                        o_peer, o_me = _wire.parse_open(po[0][2]), _wire.parse_open(aw[0][2])
+                        if o_peer and o_me:
+                            st['open'] = True
+                            st['H'] = min(o_peer['hold'], o_me['hold'])
+                            if any(it[1] == 4 for it in prior):
+                                st['ka'] = True
+                                st['next_ka'] = w.now() if st['H'] else None
+                st = ps[id(t)]
                 frames = _wire.frames_of_writes(t.written)
                 if not st['open'] and any(f[1] == 1 for f in frames):
                     o = _wire.parse_open([f for f in frames if f[1] == 1][0][2])
